@@ -303,6 +303,15 @@ def main():
                 bad("YamlFrontEnd:countries", dict(first=calls[0]["countries"], second=calls[1]["countries"]))
             if o2.get("NMONTHS") != 60:
                 bad("YamlFrontEnd:horizon", dict(got=o2.get("NMONTHS")))
+        # a selection written as one plain string reaches the runner as a one-element list (so that a lone "!X" still means "all but X")
+        del calls[:]
+        cfg2 = dict(settings=dict(countries="!MUS", NMONTHS=60), simulations=dict(a=dict(copy.deepcopy(BASE_COUNTRY), title="only")))
+        cfg2["simulations"]["a"].pop("NMONTHS", None)
+        with contextlib.redirect_stdout(io.StringIO()):
+            fy.run_scenarios_from_yaml(copy.deepcopy(cfg2), False, False, False)
+        rep["dispatch_cases"] += 1
+        if len(calls) != 1 or calls[0]["countries"] != ["!MUS"]:
+            bad("YamlFrontEnd:countries:single-string", dict(got=[c_["countries"] for c_ in calls]))
         rmnt.ScenarioRunnerNoTrade.run_model_no_trade = orig_rm
         fy.ScenarioRunnerNoTrade.run_model_no_trade = orig_rm
     except BaseException as ex:  # noqa
